@@ -51,6 +51,13 @@ def small_program(r, with_opt=True):
         for i in range(1, nt + 1):
             if r.random() < 0.7:
                 ops.append(('OAddRequired', N(i), ('ArgW', ('WPlain', N(1))), False, Z(0), Z(0)))
+    elif r.random() < 0.4:
+        # two interchangeable workers behind a selection: the same timing exists with either of them
+        ops.append(('ONewWorker', N(1), Z(1), ('CostConst', Z(0))))
+        ops.append(('ONewWorker', N(2), Z(1), ('CostConst', Z(0))))
+        ops.append(('ONewSelect', N(1), [('RW', ('WPlain', N(1))), ('RW', ('WPlain', N(2)))], Z(1), (r.choice(['PbExact', 'PbMin']),)))
+        for i in r.sample(range(1, nt + 1), r.choice([1, min(2, nt)])):
+            ops.append(('OAddRequired', N(i), ('ArgS', N(1)), False, Z(0), Z(0)))
     c = 1
     for _ in range(r.randint(0, 2)):
         k = r.choice(['CPrecedence', 'CStartAfter', 'CEndBefore', 'CDontOverlap'])
@@ -200,6 +207,7 @@ def run_case(args):
                 varlist += [t._start, t._end]
             outs = []
             marks = []
+            returned = []
             case['history'] = [(o[0], o[1] % len(varlist)) if o[0] == 'find_another_var' else tuple(o) for o in case['history']]
             out['history'] = case['history']
             for op in case['history']:
@@ -228,6 +236,7 @@ def run_case(args):
                         outs.append(('none',))
                     else:
                         outs.append(('ret', sp.MODELS.get(id(solver._model)), solution_summary(s)))
+                        returned.append((len(outs) - 1, s))
                 except (AssertionError, ValueError, TypeError, AttributeError, z3.Z3Exception) as e:
                     outs.append(('raised', type(e).__name__ + ': ' + str(e)[:100]))
                 marks.append((start, len(sp.LOG), cur_model))
@@ -236,6 +245,26 @@ def run_case(args):
         finally:
             ps.SchedulingSolver.initialize = orig_init
         analyse(out, case, solver, tasks, varlist, outs, marks, sp, z3)
+        # a solution handed to the caller does not change when the solver is used again, and its two views agree
+        for (k, sobj) in returned:
+            now = solution_summary(sobj)
+            if now != outs[k][2]:
+                out.setdefault('sem', []).append(('returned-solution-changed-afterwards', k, None))
+                break
+        for (k, sobj) in returned:
+            summ = outs[k][2]
+            bad = None
+            for tn, ws in summ['assigned'].items():
+                for w in ws:
+                    if w in summ['resources'] and not any(a[0] == tn for a in summ['resources'][w]):
+                        bad = (tn, w)
+            for w, asg in summ['resources'].items():
+                for a in asg:
+                    if a[0] in summ['assigned'] and w not in summ['assigned'][a[0]]:
+                        bad = (a[0], w)
+            if bad:
+                out.setdefault('sem', []).append(('task-and-resource-views-disagree', k, bad))
+                break
     except Exception as e:
         out['error'] = traceback.format_exc()[-1500:]
     return out
@@ -278,7 +307,9 @@ def builtin_value(case, several, z3):
 
 def solution_summary(s):
     return {'tasks': {n: (t.start, t.end, t.scheduled) for n, t in s.tasks.items()}, 'horizon': s.horizon,
-            'indicators': dict(s.indicators)}
+            'indicators': dict(s.indicators),
+            'assigned': {n: list(t.assigned_resources) for n, t in s.tasks.items()},
+            'resources': {n: [tuple(a) for a in rr.assignments] for n, rr in s.resources.items()}}
 
 
 def proj_of_model(m, tasks, z3):
@@ -655,8 +686,7 @@ def run(ctx, replay=None):
         c['prog'] = terms.from_jsonable(c['prog']) if c['prog'] and isinstance(c['prog'][0], dict) else c['prog']
     t1 = time.time()
     ctxp = mp.get_context('fork')
-    with ctxp.Pool(16) as pool:
-        results = pool.map(run_case, [(i, c, ctx.seed) for i, c in enumerate(cases)], chunksize=2)
+    results = common.pmap(run_case, [(i, c, ctx.seed) for i, c in enumerate(cases)])
     t_impl = time.time() - t1
     # model side
     live = [res for res in results if not res.get('error') and 'lines' in res]
